@@ -21,6 +21,9 @@ pub trait ByteReader {
 
     /// Read exactly `n` bytes into a pre-allocated buffer
     fn read_into(&mut self, buf: &mut [u8]) -> ParseResult<()>;
+
+    /// Number of bytes that are left to read
+    fn remaining(&self) -> usize;
 }
 
 /// A cursor for reading binary data from a byte slice
@@ -78,11 +81,16 @@ impl ByteReader for Cursor<'_> {
         self.position += n;
         Ok(())
     }
+
+    fn remaining(&self) -> usize {
+        self.data.len() - self.position
+    }
 }
 
 /// Helper function to read an array of u32 values
 pub fn read_u32_array(reader: &mut impl ByteReader, count: usize) -> ParseResult<Vec<u32>> {
-    let mut values = Vec::with_capacity(count);
+    // `count` may come from the file: do not reserve more than the input can hold
+    let mut values = Vec::with_capacity(count.min(reader.remaining() / 4));
     for _ in 0..count {
         values.push(reader.read_u32_le()?);
     }
